@@ -29,7 +29,11 @@ RULE = ("a case = a bundle of direct calls at one dimension n (so compiled kerne
         "b = 0, b an integer combination of the exact eigenvectors orthogonal to the lowest one, radii 2^k, Cauchy / Newton point "
         "exactly on the boundary; plus the exhaustively enumerated sub-space of the exact solver: every symmetric 2x2 with entries "
         "in {-2..2} x b in {-1,0,1}^2 x Delta in {0.5,1,4} (3375 calls) and every such 1x1 (45 calls) -- see "
-        "coverage.exhaustive_subspaces.  distinct = canonical hash of the case parameters.")
+        "coverage.exhaustive_subspaces.  Extreme-conditioning classes (exact_illcond / cg_illcond / dogleg_illcond): SPD with mean|sigma| ~ "
+        "||A|| and one lowest eigenvalue in the bands cond 1e8-1e10 / 1e10-1e12 / 1e12-1e14 / 1e14-1e16 / at-or-below eps||A|| (incl. "
+        "exactly 0), exact (permutation) or Haar eigenbasis, gradient generic / exactly orthogonal to the lowest eigenvector / orthogonal "
+        "to the computed one, radius bands 1e-6..1e-2 / 1e-2..1e2 / 1e2..1e8, Newton step interior / on the boundary / outside: "
+        "one call per band x gradient x radius combination and case.  distinct = canonical hash of the case parameters.")
 ASSUMPTIONS = [
     "numpy.linalg.eigh / inv / longdouble arithmetic are correct (reference oracles); oracle eigen-decomposition error "
     "c*eps*||A|| is covered by the stated rounding floors",
@@ -45,6 +49,10 @@ ASSUMPTIONS = [
     "open finding D20 is keyed to: preconditioned inner product AND >= 5 CG iterations AND | ||z||_M/D - 1 | <= 0.9 "
     "(calibration, 38400 preconditioned calls on the unchanged tree: <= 1.4e-9 up to 4 iterations, 7e-8 at 5, up to 1.4e-2 outside and 0.21 inside the ball "
     "beyond); Euclidean mode and exits within 4 iterations stay violations at 1e-6",
+    "exact solver, true minimiser interior (matrix PD in longdouble Cholesky, Newton step inside the ball): the reference is the model "
+    "AT the longdouble Newton step (exact evaluation, upper bound of the minimum) and the allowance is 1e-7|m| + 64 eps(||A||D^2 + "
+    "||b||D) + |m| min(1,(8 eps cond)^2) -- the float64 routine only knows 1/sigma_0 to eps*cond -- WITHOUT the routine's hard-case "
+    "term, which only covers multipliers within 1e-12 mean|sigma| of a pole",
     "exact solver has no iteration cap: 'never returns' = the loop observer on treigen.pnorm_squared sees the iteration state "
     "repeat (deterministic loop => infinite) or more than 400 secular iterations (converging calls need < 20), or no return "
     "within a 5 s SIGALRM budget (ordinary call ~10 ms); the first two such verdicts of every worker are re-confirmed with "
